@@ -174,8 +174,11 @@ class PosePath3D(object):
         elif right_mul and propagate:
             # Transform each pose and propagate resulting drift to the next.
             ids = np.arange(0, self.num_poses, 1, dtype=int)
+            # The relative poses use the exact matrix inverse: the transpose
+            # based lie.relative_se3() amplifies the rounding errors of the
+            # rotation blocks along the chain each time this is applied.
             rel_poses = [
-                lie.relative_se3(self.poses_se3[i], self.poses_se3[j]).dot(t)
+                np.linalg.solve(self.poses_se3[i], self.poses_se3[j]).dot(t)
                 for i, j in zip(ids, ids[1:])
             ]
             self._poses_se3 = [self.poses_se3[0]]
